@@ -62,12 +62,12 @@ def reIndentKeyword (s : Str) : Bool := (firstKw (lskip s) indentKws).isSome
 /-- the text up to the first newline (what `.*` can run over) -/
 def firstLine (s : Str) : Str := s.takeWhile (· != '\n')
 
-/-- `_re_unindentor = ^\s*(else|elif|except|finally).*\:` (`match`): a colon on the first physical line, after
-    the keyword -/
+/-- `_re_unindentor = ^\s*(else|elif|except|finally).*\:` (`match`, `re.S` since /repo b56b26e): a colon
+    anywhere after the keyword – also on a continuation line -/
 def reUnindentor (s : Str) : Bool :=
   match firstKw (lskip s) unindentKws with
   | none => false
-  | some k => (firstLine ((lskip s).drop k.length)).contains ':'
+  | some k => ((lskip s).drop k.length).contains ':'
 
 /-- `$` (no `re.M`): at the end, or before a newline that is the last character -/
 def endOk (r : Str) : Bool := r.isEmpty || r == ['\n']
@@ -108,9 +108,11 @@ structure PS where
   out : List (Nat × Str)
   /-- `MakoException("Too many whitespace closures")` was raised -/
   err : Bool
+  /-- `self.suite_is_empty` (since /repo 6d51f05): the last thing written is a line that opened a level -/
+  empty : Bool
   deriving DecidableEq, Repr
 
-def PS.init : PS := ⟨0, [], [], false⟩
+def PS.init : PS := ⟨0, [], [], false, false⟩
 
 /-- `_is_unindentor(line)` -/
 def isUnindentor (detail : List (Option Str)) (s : Str) : Bool :=
@@ -144,8 +146,8 @@ def step (σ : PS) (line : Option Str) : PS :=
   | some s =>
     let σ2 := { σ1 with out := σ1.out ++ [(σ1.indent, s)] }
     match opens s with
-    | some d => { σ2 with indent := σ2.indent + 1, detail := d :: σ2.detail }
-    | none => σ2
+    | some d => { σ2 with indent := σ2.indent + 1, detail := d :: σ2.detail, empty := true }
+    | none => { σ2 with empty := false }
 
 /-- a printer call: `writeline(line)` or `write_indented_block(text)` -/
 inductive Ev
@@ -159,9 +161,18 @@ inductive Ev
     one entry; it leaves `indent` and `indent_detail` alone. -/
 def stepEv (σ : PS) : Ev → PS
   | .wl l => step σ l
-  | .blk t => if σ.err then σ else { σ with out := σ.out ++ [(σ.indent, t)] }
+  | .blk t => if σ.err then σ else { σ with out := σ.out ++ [(σ.indent, t)], empty := false }
 
 def run (σ : PS) (ls : List Ev) : PS := ls.foldl stepEv σ
+
+/-- `suite_is_empty` after a printer call, as a function of the call alone: a written line sets it (to "this
+    line opened a level"), a block clears it, `None` leaves it -/
+def flagAfterEv (e : Bool) : Ev → Bool
+  | .wl none => e
+  | .wl (some s) => (opens s).isSome
+  | .blk _ => false
+
+def flagAfter (e : Bool) (evs : List Ev) : Bool := evs.foldl flagAfterEv e
 
 /-! ## structured programs -/
 
